@@ -768,6 +768,8 @@ def flow_prepare_event_data(event: TraceEvent, _: AbstractContext) -> list[Trace
             peer_data = flow_extraction_event["args"][_KEY_PEER]
             if isinstance(peer_data, str):
                 event_peers = [int(p) for p in peer_data.split(',')]
+            elif isinstance(peer_data, list):
+                event_peers = [int(p) for p in peer_data]
             else:
                 event_peers = [int(peer_data)]
             flow_extraction_event[_KEY_PEER] = event_peers
